@@ -712,6 +712,11 @@ func c20Big(extra int) error {
 			if total > runtime.NumGoroutine()+64 {
 				return fmt.Errorf("maxmem=%d: page accounts for %d goroutines, only about %d exist", maxmem, total, runtime.NumGoroutine())
 			}
+			// the dump was cut after at least 1 MiB (the documented minimum budget): the
+			// goroutines printed before the cut are on the page - at least half of that share
+			if least := extra * (1 << 20) / size / 2; total < least {
+				return fmt.Errorf("maxmem=%d: the %d byte dump was cut after at least 1 MiB, yet the page accounts for only %d goroutines (at least %d lay before the cut)", maxmem, size, total, least)
+			}
 		default:
 			return fmt.Errorf("maxmem=%d (dump %d bytes): status %d", maxmem, size, resp.StatusCode)
 		}
